@@ -18,10 +18,14 @@ r = sh(f"git -C /repo worktree add -q {wt} HEAD")
 env = f"cd {wt} && PYTHONPATH={wt} "
 meta = {"id": sid, "property": prop, "ran": []}
 try:
-    d0 = sh(env + f"/venv/bin/python {dst}/demo.py")
+    # the demonstration runs from OUT/x/ inside the worktree, where its author ran it (some
+    # demonstrations locate examples/ relative to their own path)
+    os.makedirs(f"{wt}/OUT/x", exist_ok=True)
+    shutil.copy(f"{dst}/demo.py", f"{wt}/OUT/x/demo.py")
+    d0 = sh(env + f"/venv/bin/python {wt}/OUT/x/demo.py")
     ap = sh(f"git -C {wt} apply {dst}/patch.diff")
     t = sh(env + "/venv/bin/python -m pytest -q -p no:cacheprovider -x 2>&1 | tail -1")
-    d1 = sh(env + f"/venv/bin/python {dst}/demo.py")
+    d1 = sh(env + f"/venv/bin/python {wt}/OUT/x/demo.py")
     meta["confirmed"] = {"demo_passes_without": d0.returncode == 0, "patch_applies": ap.returncode == 0,
                          "tests_with_change": t.stdout.strip(), "demo_fails_with": d1.returncode != 0}
 finally:
